@@ -83,6 +83,7 @@ type c15Seq struct {
 	Accept  string `json:"accept"`
 	Coding  string `json:"coding"` // "" | gzip | deflate
 	UseResp bool   `json:"pretty_via_response"`
+	Adapter bool   `json:"middleware_adapter_between_observer_and_handler"`
 }
 
 var c15Firsts = []string{"none", "WriteHeader", "WriteEntity", "WriteHeaderAndEntity", "WriteAsJson", "WriteAsXml", "WriteHeaderAndJson", "WriteHeaderAndXml", "WriteJson",
@@ -122,6 +123,12 @@ func runC15(s *c15Seq, limit int) *c15Run {
 		run.statusSeen = resp.StatusCode()
 		run.lenSeen = resp.ContentLength()
 	})
+	if s.Adapter {
+		// an adapted net/http middleware sits between the observing filter and the handler
+		c.Filter(restful.HttpMiddlewareHandlerToFilter(func(next http.Handler) http.Handler {
+			return http.HandlerFunc(func(w http.ResponseWriter, r *http.Request) { next.ServeHTTP(w, r) })
+		}))
+	}
 	ws := new(restful.WebService).Path("/b")
 	h := func(req *restful.Request, resp *restful.Response) {
 		if s.UseResp {
@@ -198,14 +205,14 @@ func c15(ctx *core.Ctx) {
 	ctx.Assume("at most one status-setting call, first in the sequence (as the property states)")
 	defer func() { restful.PrettyPrintResponses = true }()
 	seqs := ctx.N(500, 60000)
-	statuses := []int{200, 201, 202, 400, 404, 500}
+	statuses := []int{200, 201, 202, 400, 404, 500, 99, 1000}
 	for si := 0; si < seqs; si++ {
 		if ctx.Skip(si) {
 			continue
 		}
 		r := ctx.Rand(si, "seq")
 		s := &c15Seq{First: c15Firsts[si%len(c15Firsts)], Status: statuses[r.Intn(len(statuses))], Value: r.Pick([]string{"small", "big", "big", "nil", "bad"}),
-			Pretty: r.Chance(1, 2), Accept: r.Pick([]string{"", "application/json", "application/xml", "application/xml;q=0.9, application/json;q=0.1"}), UseResp: r.Chance(1, 3)}
+			Pretty: r.Chance(1, 2), Accept: r.Pick([]string{"", "application/json", "application/xml", "application/xml;q=0.9, application/json;q=0.1"}), UseResp: r.Chance(1, 3), Adapter: r.Chance(1, 4)}
 		if si%5 == 3 {
 			s.Coding = r.Pick([]string{"gzip", "deflate"})
 		}
@@ -270,6 +277,9 @@ func judgeC15(ctx *core.Ctx, si int, s *c15Seq, run *c15Run, k int, cls string) 
 	doc := map[string]interface{}{"sequence": s, "fault_after_bytes": k, "errors": fmtErrs(run.errs), "status_code_seen": run.statusSeen, "content_length_seen": run.lenSeen,
 		"writer_status": run.fw.status, "writer_accepted": run.fw.accepted, "failed_at_call": run.fw.failedAtCall}
 	cell := fmt.Sprintf("%s:coding=%s:pretty=%v", s.First, s.Coding, s.Pretty)
+	if s.Adapter {
+		cell += ":adapter"
+	}
 	if run.panicked != nil {
 		ctx.Violation(si, "c15:panic:"+cell, fmt.Sprintf("panic: %v", run.panicked), doc)
 		return
